@@ -103,6 +103,13 @@ def run(ctx) -> None:
     pe = PathEnumerator(f.node.body, set(OUTS))
     paths = pe.paths()
     ctx.floor('R1', len(paths), 18, 'syntactic paths of CalculateLCOELCOHLCOC')
+    _PATH_SEM.clear()
+    cfgs_all = list(_configs(reg))
+    for p_ in paths:        # the configurations that decidably select the path name its arm and leaf (guards may go through aliases)
+        sel = [c for c in cfgs_all if conds_hold(p_.conds, c) is True]
+        if sel:
+            _PATH_SEM[id(p_)] = ({c['econmodel.value'][1] for c in sel}, {c['enduse_option.value'][1] for c in sel},
+                                 {c['plant_type.value'][1] for c in sel})
     ctx.analysed['lcoe_paths'] = len(paths)
     res = AtomResolver(repo, 'Economics')
 
@@ -384,7 +391,14 @@ def _deps(d: Def, seen=None) -> Set[str]:
     return out
 
 
+_PATH_SEM: Dict[int, tuple] = {}
+_OWN_PLANTS = ('ABSORPTION_CHILLER', 'HEAT_PUMP', 'DISTRICT_HEATING')
+
+
 def _arm_of(p) -> str:
+    sem = _PATH_SEM.get(id(p))
+    if sem is not None and len(sem[0]) == 1:
+        return next(iter(sem[0]))
     for t, pol, _ in p.conds:
         if pol and 'econmodel.value ==' in norm(t):
             return norm(t).split('.')[-1]
@@ -394,6 +408,15 @@ def _arm_of(p) -> str:
 
 
 def _leaf_label(p) -> str:
+    sem = _PATH_SEM.get(id(p))
+    if sem is not None:
+        _, uses, plants = sem
+        if uses == {'ELECTRICITY'}:
+            return 'ELECTRICITY'
+        if all(u.startswith('COGENERATION') for u in uses):
+            return 'COGENERATION'
+        if uses == {'HEAT'}:
+            return next(iter(plants)) if len(plants) == 1 and next(iter(plants)) in _OWN_PLANTS else 'HEAT'
     parts = []
     for t, pol, _ in p.conds:
         if not pol or 'econmodel' in norm(t):
